@@ -798,9 +798,12 @@ func monitor(c Case, r result) []core.Violation {
 			sig = "stale-written-after-supersession"
 		}
 		if errClass != "" {
-			sig = "error-recovery/" + errClass
-			if stale {
-				sig += "/with-stale-completion"
+			// a completion report of a superseded delivery that reaches the ledger after the newer
+			// delivery was mentioned is finding F1 whatever caused the redelivery (here: recovery
+			// re-requesting from a position before the interrupted transaction's COMMIT); without such
+			// a report the failure belongs to the recovery path itself
+			if !stale {
+				sig = "error-recovery/" + errClass
 			}
 			lastCommit = 0
 			for _, t := range c.Txns {
